@@ -37,7 +37,7 @@ TEMPLATE_SHAPE = {
     "ty": r"^⟨proc_macro2::Ident⟩ : ⟨proc_macro2::TokenStream⟩ \. ty \. clone \( \) ,$",
     "default": r"^⟨proc_macro2::Ident⟩ : ⟨proc_macro2::TokenStream⟩ \. default \. clone \( \) ,$",
     "generics": r"^⟨proc_macro2::Ident⟩ : :: darling :: FromGenerics :: from_generics \( & ⟨proc_macro2::TokenStream⟩ \. generics \) \? ,$",
-    "data": r"^⟨proc_macro2::Ident⟩ : ⟨alt ⟨syn::path::Path⟩ \| :: darling :: ast :: Data :: try_from ⟩ \( & ⟨proc_macro2::TokenStream⟩ \. data \) \? ,$",
+    "data": r"^⟨proc_macro2::Ident⟩ : ⟨alt ⟨syn::path::Path⟩ ¦ :: darling :: ast :: Data :: try_from ⟩ \( & ⟨proc_macro2::TokenStream⟩ \. data \) \? ,$",
     "fields": r"^⟨proc_macro2::Ident⟩ : :: darling :: ast :: Fields :: try_from \( & ⟨proc_macro2::TokenStream⟩ \. fields \) \? ,$",
     "discriminant": r"^⟨proc_macro2::Ident⟩ : ⟨proc_macro2::TokenStream⟩ \. discriminant \. as_ref \( \) \. map \( \| \( _ , expr \) \| expr \. clone \( \) \) ,$",
     "bounds": r"^⟨proc_macro2::Ident⟩ : ⟨proc_macro2::TokenStream⟩ \. bounds \. clone \( \) \. into_iter \( \) \. collect :: < Vec < _ >> \( \) ,$",
